@@ -336,3 +336,23 @@ pub fn run_and_report(ctx: &Ctx, d: &Driver, out: &mut Outcome) {
     let r = run_driver(ctx, d);
     report(d, &r, out);
 }
+
+/// every driver by name (debugging aid: `utpmc solo-debug <driver> '[0,2,8]'`)
+pub fn all_drivers(tier: Tier) -> Vec<Driver> {
+    let mut v = vec![rx(tier, 2, vec![MSS], 6), rx(tier, 4, vec![MSS, 1], 6), rx(tier, 4, vec![1, MSS], 6), rx(tier, 3, vec![MSS - 1], 6), rx_halfclosed(tier, 6), rx_rude(tier, 6)];
+    v.push(tx_window(tier, true, 10, 6));
+    v.push(tx_window(tier, false, 10, 6));
+    v.push(rtx(tier, 2, false, 7));
+    v.push(rtx(tier, 5, true, 7));
+    v.extend(fsm_all(tier, 5));
+    v.push(nagle(tier, true, 6));
+    v.push(nagle(tier, false, 6));
+    for (i, m) in [(8usize, 8usize), (8, 32), (32, 8)] {
+        v.push(tx_flow(tier, i, m, 6));
+    }
+    v.push(close(tier, 6));
+    v.extend(hostile_all(tier, 2));
+    v.push(mtu(tier, 700, Some(600), None, 0, 6));
+    v.push(mtu(tier, 700, None, None, 1, 6));
+    v
+}
